@@ -21,8 +21,8 @@ namespace Aiorpcx.C07
 /-- the single law assumed of the checksum function -/
 def CkLaw (cksum : Bytes → Bytes) : Prop := ∀ p, (cksum p).length = 4
 
-/-- a checksum function for the non-vacuity examples: first byte = length mod 256 -/
-def ck0 : Bytes → Bytes := fun p => [UInt8.ofNat p.length, 7, 7, 7]
+/-- a checksum function for the non-vacuity examples: length mod 256, first byte, 7, 7 -/
+def ck0 : Bytes → Bytes := fun p => [UInt8.ofNat p.length, p.headD 0, 7, 7]
 theorem ck0_law : CkLaw ck0 := fun _ => rfl
 /-- a configuration for the examples -/
 def cfg0 : Cfg := ⟨[0xe3, 0xe1, 0xf3, 0xe8], 5, 9⟩
@@ -78,7 +78,7 @@ theorem frame_errors (cfg : Cfg) (cksum : Bytes → Bytes) (cmd payload : Bytes)
 
 example : frame cfg0 ck0 [1, 2] [9] =
     .ok ([0xe3, 0xe1, 0xf3, 0xe8] ++ [1, 2, 0, 0, 0, 0, 0, 0, 0, 0, 0, 0] ++ [1, 0, 0, 0] ++
-         [1, 7, 7, 7] ++ [9]) := by decide
+         [1, 9, 7, 7] ++ [9]) := by decide
 example : frame cfg0 ck0 (List.replicate 13 65) [] = .error .valueError := by decide
 
 /-- `le32`/`unle` are inverse below 2^32 / on 4-byte strings -/
@@ -411,6 +411,70 @@ theorem command_field_unprotected (cfg : Cfg) (cksum : Bytes → Bytes) (hm : cf
     (by rw [hu]) (by rw [hu]; exact hs)
   simpa using this
 
+/-- a framer whose magic is not 4 bytes wide rejects every header (its own frames included) -/
+theorem bad_magic_width (cfg : Cfg) (hm : cfg.magic.length ≠ 4) (h : Bytes) (hl : h.length = 24) :
+    parseHeader cfg h = .error .badMagic := by
+  rw [parseHeader_badMagic_iff]
+  intro e
+  apply hm
+  rw [← e]
+  simp [hMagic, magicW, hl]
+
+/-- the header `frame` puts in front of the payload -/
+def hdr (cfg : Cfg) (cksum : Bytes → Bytes) (m : Bytes × Bytes) : Bytes :=
+  cfg.magic ++ (m.1 ++ List.replicate (12 - m.1.length) 0 ++ (le32 m.2.length ++ cksum m.2))
+
+/-- a framed message whose payload was possibly replaced in transit by `p'` (same length) -/
+def damagedWire (cfg : Cfg) (cksum : Bytes → Bytes) (x : (Bytes × Bytes) × Option Bytes) : Bytes :=
+  hdr cfg cksum x.1 ++ x.2.getD x.1.2
+
+/-- what the property promises for it -/
+def damagedOut (cksum : Bytes → Bytes) (x : (Bytes × Bytes) × Option Bytes) : Out :=
+  match x.2 with
+  | none => .msg x.1.1 x.1.2
+  | some p' => if cksum p' = cksum x.1.2 then .msg x.1.1 p' else .err .badChecksum
+
+/-- **errors are isolated, for whole sequences**: any sequence of sendable messages, any subset
+    of them with a damaged payload, any following bytes: each damaged message yields exactly one
+    `BadChecksumError` (or is delivered with the damaged payload if the checksums collide) and
+    every other message is delivered intact, in order -/
+theorem damaged_sequence (cfg : Cfg) (cksum : Bytes → Bytes) (hm : cfg.magic.length = 4)
+    (hk : CkLaw cksum) (xs : List ((Bytes × Bytes) × Option Bytes))
+    (hs : ∀ x ∈ xs, Sendable cfg x.1 ∧ ∀ p' ∈ x.2, p'.length = x.1.2.length) (rest : Bytes) :
+    decode cfg cksum ((xs.map (damagedWire cfg cksum)).flatten ++ rest) =
+      xs.map (damagedOut cksum) ++ decode cfg cksum rest := by
+  induction xs with
+  | nil => simp
+  | cons x xs ih =>
+    obtain ⟨s1, s2⟩ := hs x (by simp)
+    have hs' : ∀ y ∈ xs, Sendable cfg y.1 ∧ ∀ p' ∈ y.2, p'.length = y.1.2.length :=
+      fun y hy => hs y (by simp [hy])
+    have hb := (header_layout cfg cksum x.1.1 x.1.2 s1.cmdLen s1.lenPack).1
+    simp only [List.map_cons, List.flatten_cons, List.append_assoc, List.cons_append]
+    obtain ⟨m, d⟩ := x
+    cases d with
+    | none =>
+      have := payload_corruption_local cfg cksum hm hk m s1 m.2
+        ((List.map (damagedWire cfg cksum) xs).flatten ++ rest) _ hb rfl
+      simp only [↓reduceIte] at this
+      simp only [damagedWire, hdr, Option.getD_none, damagedOut, List.append_assoc]
+      simp only [List.append_assoc] at this
+      rw [this, ih hs']
+    | some p' =>
+      have hl : p'.length = m.2.length := s2 p' (by simp)
+      have := payload_corruption_local cfg cksum hm hk m s1 p'
+        ((List.map (damagedWire cfg cksum) xs).flatten ++ rest) _ hb hl
+      simp only [damagedWire, hdr, Option.getD_some, damagedOut, List.append_assoc]
+      simp only [List.append_assoc] at this
+      rw [this, ih hs']
+
+/-- non-vacuity: a damaged payload that is detected, and one whose checksum collides -/
+example : (Sendable cfg0 ([118], [1, 2]) ∧ ∀ p' ∈ (some [3, 2] : Option Bytes), p'.length = 2) ∧
+    damagedOut ck0 (([118], [1, 2]), some [3, 2]) = .err .badChecksum ∧
+    damagedOut ck0 (([118], [1, 2]), some [1, 9]) = .msg [118] [1, 9] ∧
+    damagedOut ck0 (([118], [1, 2]), none) = .msg [118] [1, 2] := by
+  refine ⟨⟨⟨by decide, by decide, by decide, by decide⟩, by simp⟩, by decide, by decide, by decide⟩
+
 /-- **magic_size_no_delivery**: wrong magic, or right magic with an over-limit length: one
     error (of the corresponding class, magic tested first), nothing delivered for that header,
     exactly 24 bytes consumed -/
@@ -474,6 +538,21 @@ theorem run_monotone (cfg : Cfg) (cksum : Bytes → Bytes) (cs more : List Bytes
     run cfg cksum BQ.empty cs <+: run cfg cksum BQ.empty (cs ++ more) := by
   rw [run_concat, run_concat, List.flatten_append]
   exact decode_prefix cfg cksum _ _ _ rfl
+
+/-- incremental = batch: after any received prefix `a` the reader is left with an incomplete
+    rest (a suffix of `a`: the bytes of the message it is waiting to complete), and whatever
+    arrives later is decoded exactly as if that rest and the new bytes had arrived together.
+    (The reader coroutine itself is a deterministic function of the FIFO chunk sequence; this is
+    the statement that lets the reader run *while* chunks are still arriving.) -/
+theorem decode_incremental (cfg : Cfg) (cksum : Bytes → Bytes) (a : Bytes) :
+    ∃ pre rest, a = pre ++ rest ∧ step cfg cksum rest = none ∧ decode cfg cksum rest = [] ∧
+      ∀ b, decode cfg cksum (a ++ b) = decode cfg cksum a ++ decode cfg cksum (rest ++ b) := by
+  obtain ⟨items, rest, e1, e2, e3, e4⟩ := decode_spec cfg cksum a.length a rfl
+  refine ⟨(items.map Item.bytes).flatten, rest, e1, e4, by rw [decode_eq, e4], ?_⟩
+  intro b
+  rw [e3]
+  conv => lhs; rw [e1, List.append_assoc]
+  exact decode_items cfg cksum items e2 (rest ++ b)
 
 example : ([[1, 2], [], [3]] : List Bytes).flatten = ([[1], [2, 3]] : List Bytes).flatten := by
   decide
@@ -563,6 +642,36 @@ theorem session_no_fatal (outs : List Out) (h : outs.any fatal = false) :
   obtain ⟨a, b, c⟩ := session_policy outs
   rw [e] at a c
   exact ⟨a, by rw [b, h], c⟩
+
+/-- end to end for the "mismatch raises for that message only" clause: a session fed (in any
+    chunking) a sequence of sendable frames some of which have a damaged payload counts one
+    error per mismatching frame, stays open, and handles every other message, in order -/
+theorem session_damaged_sequence (cfg : Cfg) (cksum : Bytes → Bytes) (hm : cfg.magic.length = 4)
+    (hk : CkLaw cksum) (xs : List ((Bytes × Bytes) × Option Bytes))
+    (hs : ∀ x ∈ xs, Sendable cfg x.1 ∧ ∀ p' ∈ x.2, p'.length = x.1.2.length)
+    (chunks : List Bytes) (hc : chunks.flatten = (xs.map (damagedWire cfg cksum)).flatten) :
+    let s := sessRun (run cfg cksum BQ.empty chunks) Sess.init
+    s.errors = ((xs.map (damagedOut cksum)).filter isErr).length ∧ s.closed = false ∧
+    s.delivered = (xs.map (damagedOut cksum)).filterMap msgOf := by
+  have e : run cfg cksum BQ.empty chunks = xs.map (damagedOut cksum) := by
+    rw [run_concat, hc]
+    have := damaged_sequence cfg cksum hm hk xs hs []
+    simp only [List.append_nil] at this
+    rw [this, (decode_incomplete cfg cksum).1 [] (by decide), List.append_nil]
+  have nf : (xs.map (damagedOut cksum)).any fatal = false := by
+    rw [List.any_eq_false]
+    intro o ho
+    rw [List.mem_map] at ho
+    obtain ⟨x, _, rfl⟩ := ho
+    obtain ⟨m, d⟩ := x
+    cases d with
+    | none => simp [damagedOut, fatal]
+    | some p' =>
+      simp only [damagedOut]
+      split <;> simp [fatal, policy]
+  simp only
+  rw [e]
+  exact session_no_fatal _ nf
 
 /-- end to end: the session on a chunked byte stream depends only on the concatenation -/
 theorem session_chunking_independent (cfg : Cfg) (cksum : Bytes → Bytes) (cs cs' : List Bytes)
